@@ -132,11 +132,20 @@ func (c *c04Chain) close() { c.t.done() }
 
 // tx signed by the committee/validator account with Global scope and an explicit system fee.
 func (c *c04Chain) newTx(script []byte, sysFee int64) *transaction.Transaction {
+	return c.newTxUntil(script, sysFee, 1)
+}
+
+func (c *c04Chain) newTxUntil(script []byte, sysFee int64, blocks uint32) *transaction.Transaction {
 	tx := transaction.New(script, sysFee)
 	tx.Nonce = neotest.Nonce()
-	tx.ValidUntilBlock = c.bc.BlockHeight() + 1
+	tx.ValidUntilBlock = c.bc.BlockHeight() + blocks
 	tx.Signers = []transaction.Signer{{Account: c.owner.ScriptHash(), Scopes: transaction.Global}}
 	neotest.AddNetworkFee(c.t, c.bc, tx, c.owner)
+	if blocks > 1 {
+		// the fee per byte may be raised by an earlier transaction of the same case before this one is verified
+		// in a block of its own on the replica
+		tx.NetworkFee += 1000_0000
+	}
 	if err := c.owner.SignTx(c.bc.GetConfig().Magic, tx); err != nil {
 		panic(err)
 	}
